@@ -78,6 +78,10 @@ def make_scenario(rng, seed):
     for i in range(n):
         sc["sources"]["c%d.c" % i] = "// c%d\n" % i
         st = St("s%d" % i, ["o%d.o" % i], ins=["c%d.c" % i] + ([rng.choice(outs)] if outs and rng.random() < 0.4 else []))
+        if rng.random() < 0.3:
+            st["outs"].append("o%d.map" % i)           # the FAILED header names every output, explicit and implicit
+        if rng.random() < 0.3:
+            st["iouts"] = ["o%d.lst" % i] + (["gen dir/o%d,x=y.h" % i] if False else [])
         args, text, otext = [], "", ""
         nch = rng.choice((0, 0, 1, 2, 3, 5))
         for k in range(nch):
@@ -113,7 +117,8 @@ def make_scenario(rng, seed):
         st["vtool_args"] = args
         sc["stmts"].append(st)
         outs.append(st["outs"][0])
-        expect[st["outs"][0]] = {"text": text.encode("latin-1"), "fail": fail, "console": console, "sid": st["id"]}
+        expect[st["outs"][0]] = {"text": text.encode("latin-1"), "fail": fail, "console": console, "sid": st["id"],
+                                 "all_outs": st["outs"] + st["iouts"]}
     return sc, expect
 
 
@@ -281,17 +286,19 @@ def e2e_case(ctx, seed):
                 return
             pos = so.find(text)
             before = so[:pos]
-            cl = cmdline.get(o, "").replace("$$", "$").replace("$in", " ".join(next(s for s in sc["stmts"] if s["outs"][0] == o)["ins"])).replace("$out", o)
+            cl = cmdline.get(o, "").replace("$$", "$").replace("$in", " ".join(next(s for s in sc["stmts"] if s["outs"][0] == o)["ins"])).replace("$out", " ".join(next(s for s in sc["stmts"] if s["outs"][0] == o)["outs"]))
             # the status line (or, for a failure, the FAILED header + full command line) directly precedes the block
             tail = before[-(len(cl) + 400):]
             if mode == "pipe":
                 if ex["fail"]:
-                    okp = re.search(rb"FAILED: \[code=\d+\] " + re.escape(o.encode()) + rb" \n" + re.escape(cl.encode("latin-1")) + rb"\n+$", tail)
+                    allo = " ".join(ex["all_outs"]).encode()
+                    okp = re.search(rb"FAILED: \[code=\d+\] " + re.escape(allo) + rb" \n" + re.escape(cl.encode("latin-1")) + rb"\n+$", tail)
                 else:
                     okp = re.search(re.escape(cl.encode("latin-1")) + rb"\n+$", tail)
             else:
                 if ex["fail"]:
-                    okp = re.search(rb"FAILED: .*?" + re.escape(o.encode()) + rb" \n" + re.escape(cl.encode("latin-1")) + rb"\n+$", tail, re.S)
+                    allo = " ".join(ex["all_outs"]).encode()
+                    okp = re.search(rb"FAILED: .*?" + re.escape(allo) + rb" \n" + re.escape(cl.encode("latin-1")) + rb"\n+$", tail, re.S)
                 else:
                     okp = re.search(re.escape(cl.encode("latin-1")) + rb"(\x1b\[K)?\n+$", tail)
             if not okp:
